@@ -1,10 +1,15 @@
 ------------------------- MODULE TraceMC_HsManager -------------------------
 (* Scenario constants of the whole-node harness (harness/e2e/zz_verif_hs_test.go). *)
 EXTENDS Trace_HsManager
-TNodes == {"A", "B", "M", "X"}
-TAddrs == {"a1", "a2", "b1", "b2", "m1"}
-TCert  == [n \in TNodes |-> CASE n = "A" -> <<"a1", "a2">> [] n = "B" -> <<"b1", "b2">> [] n = "M" -> <<"m1">> [] n = "X" -> <<"b1">>]
-TTrusts == [n \in TNodes |-> IF n = "X" THEN {"X"} ELSE {"A", "B", "M"}]
+TNodes == {"A", "B", "M", "X", "P", "S"}
+TAddrs == {"a1", "a2", "b1", "b2", "m1", "p1", "p2", "s1"}
+\* P holds a v1 certificate (p1) it initiates with and a v2 certificate (p1, p2); S is certified for s1 and for p2,
+\* one of P's own addresses
+TInit  == [n \in TNodes |-> CASE n = "A" -> <<"a1", "a2">> [] n = "B" -> <<"b1", "b2">> [] n = "M" -> <<"m1">> [] n = "X" -> <<"b1">>
+                               [] n = "P" -> <<"p1">> [] n = "S" -> <<"s1", "p2">>]
+TResp  == [n \in TNodes |-> IF n = "P" THEN <<"p1", "p2">> ELSE TInit[n]]
+TOwn   == [n \in TNodes |-> {TResp[n][k] : k \in 1..Len(TResp[n])}]
+TTrusts == [n \in TNodes |-> IF n = "X" THEN {"X"} ELSE {"A", "B", "M", "P", "S"}]
 \* static_host_map of each node; several remotes for one address are tried in the (sorted) order of their underlay addresses
 TRoute == [n \in TNodes |-> [a \in TAddrs |->
               CASE n = "A" /\ a = "b1" -> <<"B", "M">>
@@ -15,5 +20,9 @@ TRoute == [n \in TNodes |-> [a \in TAddrs |->
                 [] n = "M" /\ a \in {"a1", "a2"} -> <<"A">>
                 [] n = "M" /\ a \in {"b1", "b2"} -> <<"B">>
                 [] n = "X" /\ a \in {"a1", "a2"} -> <<"A">>
+                [] n = "P" /\ a = "s1" -> <<"S">>
+                [] n = "P" /\ a = "b1" -> <<"B">>
+                [] n = "S" /\ a = "p1" -> <<"P">>
+                [] n = "B" /\ a = "p1" -> <<"P">>
                 [] OTHER -> <<>>]]
 =============================================================================
